@@ -29,8 +29,8 @@ impl Check for C18 {
     }
     fn phases(&self, tier: Tier) -> Vec<Phase> {
         match tier {
-            Tier::Quick => vec![Phase::random("images", 48, 4096).batch(5).watchdog(60_000)],
-            Tier::Thorough => vec![Phase::random("images", 1_500, 4096).batch(10).watchdog(60_000)],
+            Tier::Quick => vec![Phase::random("images", 48, 4096).batch(3).watchdog(300_000)],
+            Tier::Thorough => vec![Phase::random("images", 400, 4096).batch(5).watchdog(300_000)],
         }
     }
     fn min_nontrivial_pct(&self) -> u32 {
